@@ -50,7 +50,21 @@ def variants(fn: ast.FunctionDef, tier: str):
         if tier == "thorough":
             vs.append(("periods=small-odd", {k: (5 if v >= 5 else v) for k, v in ip if v >= 2}))
             vs.append(("periods+3", {k: v + 3 for k, v in ip if v >= 2}))
+    # selectable moving average: also a recursive one (1 = ema), whose value depends on the whole (sliced) history
+    mt = ma_params(fn)
+    if mt:
+        vs.append(("matype=ema", {k: 1 for k in mt}))
     return [(n, o) for n, o in vs if n == "defaults" or o]
+
+
+def ma_params(fn: ast.FunctionDef):
+    out = []
+    args, defaults = fn.args.args, fn.args.defaults
+    off = len(args) - len(defaults)
+    for i, a in enumerate(args):
+        if i >= off and "matype" in a.arg and isinstance(defaults[i - off], ast.Constant) and isinstance(defaults[i - off].value, int) and defaults[i - off].value != 1:
+            out.append(a.arg)
+    return out
 
 
 def analyse_one(args):
